@@ -3602,7 +3602,8 @@ class NonTensorStack(LazyStackedTensorDict):
     def to_dict(
         self, *, retain_none: bool = True, convert_tensors: bool = False
     ) -> dict[str, Any]:
-        return self.tolist(convert_tensors=convert_tensors)
+        # NonTensorStack.tolist() takes no argument (there is no tensor to convert)
+        return self.tolist()
 
     def to_tensordict(self, *, retain_none: bool | None = None):
         return self
